@@ -147,7 +147,7 @@ CHECKS["C10"]["harnesses"] += [
     H("txfile.VerifWALSerialize", "readWAL(writeWAL(mapping)) == mapping for ids < 2^56 over several pages", "<= 4 entries", thorough={"params": {"entries": 6}}),
 ]
 CHECKS["C10"]["harnesses"] += variants("txfile.VerifProgReopen", "reopened instance == running instance (free lists, markers, meta area, overwrite log, root, stats, allocatable pages), then one more symbolic transaction",
-                                        {"nops": 2, "ntx": 1, "nops2": 1}, {"nops": 3, "ntx": 2, "nops2": 1}, quick_vs=(0, 4))
+                                        {"nops": 2, "ntx": 1, "nops2": 1}, {"nops": 3, "ntx": 1, "nops2": 1}, quick_vs=(0, 4))
 CHECKS["C10"]["harnesses"].append(OVERFLOW)
 CHECKS["C10"]["harnesses"].append(ALLOCFREE_REOPEN)
 CHECKS["C10"]["bounds"] += "; " + PROG_BOUNDS
